@@ -350,7 +350,7 @@ func forEachMediaRange(header []byte, functor func([]byte)) {
 
 	for len(header) > 0 {
 		n := 0
-		header = utils.TrimLeft(header, ' ')
+		header = bytes.TrimLeft(header, " \t")
 		quotes := 0
 		escaping := false
 
@@ -453,7 +453,7 @@ func getOffer(header []byte, isAccepted func(spec, offer string, specParams head
 			}
 		}
 
-		spec = utils.Trim(spec, ' ')
+		spec = bytes.Trim(spec, " \t")
 
 		// Determine specificity
 		var specificity int
